@@ -172,7 +172,7 @@ def cli_run(item):
     return {'input': ident, 'digest': dg, 'how': f'cli seed={hashseed} cwd={startdir}'}
 
 
-def run(tier: str) -> int:
+def run(tier: str, only_key: dict | None = None) -> int:
     res = Result('C08', tier)
     r = tlc.run_tlc('Client', 'MC_Client.cfg', workers=16, timeout=900)
     tlc.check_mc(r, 'MC_Client.cfg', ['CacheHit', 'RunOk', 'RunFail', 'Rewrite', 'Chdir'])
@@ -231,7 +231,7 @@ def run(tier: str) -> int:
             wit = [w for w in vd['w'] if w.get('clause') == c][:2]
             res.violation({'clause': c, 'family': t['family'], 'ops': [e['op'] for e in t['events']]},
                           f'{c} fails in client history #{t["tid"]} ({t["family"]}): {json.dumps(wit)[:300]}',
-                          {'history': t, 'verdict': vd})
+                          {'history': t, 'verdict': vd, 'family_texts': next(([f_[1], f_[2]] for f_ in fams if f_[0] == t['family']), None)})
     # ---- contamination sequences + hash-seed / directory independence (TraceHistory)
     ex = sim.example_inputs()
     texts = {f'{n}|{v}': t for n, a, b in fams for v, t in (('v1', a), ('v2', b))}
@@ -283,9 +283,29 @@ def run(tier: str) -> int:
                        'directories; distinct = history / run identity')
     res.assumptions += ['results compared as report text without date/time lines',
                         'the reference result of a content version is its run in a history of length one']
+    if only_key is not None:
+        res.violations = [v for v in res.violations if v[0] == only_key]
     return res.finish()
 
 
 def replay(path: str) -> int:
-    print(open(path).read()[:3000])
-    return 0
+    """Execute the recorded client history again (same files, directories, operations) and validate it with TraceClient.tla."""
+    data = json.loads(open(path).read())
+    rp = data['replay']
+    if 'history' not in rp or not rp.get('family_texts'):
+        return run('quick', only_key=data['key'])      # contamination sequences: the whole sequence plan is executed again
+    res = Result('C08', 'quick')
+    t = rp['history']
+    fam = (t['family'], rp['family_texts'][0], rp['family_texts'][1])
+    refs = reference_digests([fam])
+    rec = sim.call_in_pool('harness.c08:replay_history', [({'files0': t['files0'], 'cwd0': t['cwd0'], 'ops': t['events']}, fam)], procs=1)[0]
+    tr = {'tid': 1, 'files0': rec['files0'], 'cwd0': rec['cwd0'], 'events': rec['events'], 'bad': rec['bad'],
+          'refs': {'v1': refs[f'{fam[0]}|v1'], 'v2': refs[f'{fam[0]}|v2']}, 'family': fam[0]}
+    verdicts, ds, gs = tlc.validate_traces('TraceClient', 'TraceClient.cfg', [tr])
+    res.traces += 1
+    res.case('replayed history')
+    for c in verdicts[1]['f']:
+        wit = [w for w in verdicts[1]['w'] if w.get('clause') == c][:2]
+        res.violation({'clause': c, 'family': fam[0], 'ops': [e['op'] for e in tr['events']]}, f'{c} fails in the replayed client history: {json.dumps(wit)[:300]}',
+                      {'history': tr, 'verdict': verdicts[1], 'family_texts': rp['family_texts']})
+    return res.finish()
